@@ -1016,6 +1016,20 @@ def sym_exec(idx, fi, stmts=None, env=None, store=None, loops='error', max_paths
                     isinstance(s.target, (ast.Tuple, ast.List)) and all(isinstance(t_, ast.Name) for t_ in s.target.elts))):
                 # `for x in (a, b, c)` / `for c, m in ((c1, m1), ...)` over a literal (or a local bound to one) is unrolled
                 it = tb.build(s.iter, env, store)
+                if it[0] == 'meth' and it[1] == ('self',) and not it[4]:
+                    # the table may be built by a helper method that the normaliser left in place (idx.unreviewed)
+                    owner = fi
+                    while owner.outer is not None:
+                        owner = owner.outer
+                    callee = idx.lookup(owner.cls, it[2]) if owner.cls is not None else None
+                    if callee is not None and callee.qualname in set(getattr(idx, 'unreviewed', ()) or ()) \
+                            and len(callee.params) == len(it[3]) + 1:
+                        try:
+                            cps = sym_exec(idx, callee, env=dict(zip(callee.params[1:], it[3])), store=store)
+                        except Unsupported:
+                            cps = []
+                        if len(cps) == 1 and cps[0].kind == 'ret' and cps[0].store == store:
+                            it = cps[0].value
                 names = [s.target.id] if isinstance(s.target, ast.Name) else [t_.id for t_ in s.target.elts]
                 fits = it[0] in ('tuple', 'list') and len(it[1]) <= 16 and not any(
                     isinstance(n, (ast.Break, ast.Continue)) for b_ in s.body for n in ast.walk(b_))
@@ -1340,6 +1354,12 @@ def validator_range(idx, module, expr, bind=None, depth=0):
             return VRange(Interval.TOP)
         if expr.id == 'bool':
             return VRange(enum=[False, True], numeric=False)
+        vals = module.assigns.get(expr.id, []) if module is not None else []
+        if len(vals) == 1:
+            return validator_range(idx, module, vals[0], {}, depth + 1)       # a validator bound to a module-level constant
+        kind, obj = idx.resolve_name(module, expr.id) if module is not None else (None, None)
+        if kind == 'value' and len(obj[0].assigns.get(obj[1], [])) == 1:
+            return validator_range(idx, obj[0], obj[0].assigns[obj[1]][0], {}, depth + 1)
         raise Unsupported('validator %s' % expr.id)
     if isinstance(expr, ast.Constant):
         return VRange(enum=[expr.value], numeric=isinstance(expr.value, (int, float)) and not isinstance(expr.value, bool))
@@ -1760,6 +1780,19 @@ class MagEval(object):
     def dim(self, t):
         if t in self.dim_subst:
             return self.dim_subst[t]
+        if t[0] == 'index' and t[1][0] == 'attr' and t[1][2] == 'shape' and t[2][0] == 'num':
+            sh = self.ev(t[1][1]).shape            # x.shape[i] of an array whose symbolic shape is known
+            i = int(t[2][1])
+            if -len(sh) <= i < len(sh):
+                return sh[i]
+            raise Unsupported('shape index %d of a %d-axis array' % (i, len(sh)))
+        if t[0] == 'call' and t[1] == 'len' and len(t[2]) == 1 and t not in self.dim_subst:
+            try:
+                sh = self.ev(t[2][0]).shape
+                if sh:
+                    return sh[0]
+            except Unsupported:
+                pass
         try:
             return self.renv.rat(t)
         except Unsupported:
